@@ -53,10 +53,14 @@ func GetLengthLimitedID(fixedPrefix, suffix string, maxLength int) string {
 	prefixLen := len(fixedPrefix)
 	suffixLen := len(suffix)
 	totalLen := prefixLen + suffixLen
-	if totalLen > maxLength || (totalLen == maxLength && suffix[0:1] == shortenedPrefix) {
-		// Either it's just too long, or it's exactly the right length but it happens to
-		// start with the character that we use to denote a shortened string, which could
-		// result in a clash.  Hash the value and truncate...
+	// A shortened name is the prefix, the marker and as much of the hash as fits: exactly
+	// maxLength characters, unless the limit leaves room for more than the whole hash (for
+	// example nftables' 256-character limit).
+	shortenedLen := min(maxLength, prefixLen+len(shortenedPrefix)+base64.RawURLEncoding.EncodedLen(sha256.Size))
+	if totalLen > maxLength || (totalLen == shortenedLen && suffix[0:1] == shortenedPrefix) {
+		// Either it's just too long, or it's exactly the length of a shortened name and it
+		// happens to start with the character that we use to denote a shortened string, which
+		// could result in a clash.  Hash the value and truncate...
 		hasher := sha256.New()
 		_, err := hasher.Write([]byte(suffix))
 		if err != nil {
@@ -68,7 +72,7 @@ func GetLengthLimitedID(fixedPrefix, suffix string, maxLength int) string {
 			log.Panicf("GetLengthLimitedID: maxLength %d is too small for prefix %q (length %d); "+
 				"need at least %d", maxLength, fixedPrefix, prefixLen, prefixLen+2)
 		}
-		return fixedPrefix + shortenedPrefix + hash[0:charsLeftForHash]
+		return fixedPrefix + shortenedPrefix + hash[0:shortenedLen-len(shortenedPrefix)-prefixLen]
 	}
 	// No need to shorten.
 	return fixedPrefix + suffix
